@@ -46,4 +46,9 @@ def r4(run, tree):
     lfold.check_load(run, tree)
 
 
-RULES = [r1, r2, r3, r4]
+def r_shared_c15_r5(run, tree):
+    run.rule("C15.R5", "the sink group is parsed anew on every load (no object shared between loads)", "D7 folds (shared)", "", floor=1)
+    iof.check_sink(run, tree)
+
+
+RULES = [r_shared_c15_r5, r1, r2, r3, r4]
